@@ -158,6 +158,27 @@ def canonicalise(j, ref=None):
                 fl['name'] = on
     if fmap:
         _rename_fields(j['bodies'], fmap)
+        # names of captured places (`self.slots` captured by a closure is called `_ref__self__slots`)
+        subs = [(re.compile(r'(?<![A-Za-z0-9])%s(?![A-Za-z0-9])' % re.escape(new)), old) for (adt, var, new), old in fmap.items()]
+
+        def fix(name):
+            parts = name.split('__')
+            return '__'.join(next((o for rx, o in subs if rx.fullmatch(p_)), p_) for p_ in parts)
+
+        def walk(x):
+            if isinstance(x, dict):
+                if 'n' in x and 'f' in x and isinstance(x.get('bt'), str) and x['bt'].startswith('{'):
+                    x['n'] = fix(x['n'])
+                for v in x.values():
+                    walk(v)
+            elif isinstance(x, list):
+                for v in x:
+                    walk(v)
+        for b in j['bodies']:
+            if b.get('upvars'):
+                b['upvars'] = [fix(u) for u in b['upvars']]
+            walk(b.get('blocks') or [])
+            walk(b.get('debug') or [])
         for at in j.get('attrs', []):
             for (adt, var, new), old in fmap.items():
                 if at.get('path') == adt:
